@@ -785,6 +785,52 @@ pub fn check_case(c: &Case) -> Outcome {
             ));
         }
     }
+    // erase between draws (what the renderer does when an image moves): the image drawn again
+    // on the same handler still emits the bytes of its first draw
+    for (v, bytes) in views.iter().zip(&first) {
+        let mut sink: Vec<u8> = Vec::new();
+        guard_val(|| h1.erase(&mut sink, &v.img, Some(Position::new(0, 0))))?
+            .map_err(|e| Fail::new("erase/error", format!("{}: erase returned Err({e:?})", v.ctx)))?;
+        let again = draw(&mut h1, &v.img, &v.ctx)?;
+        if &again != bytes {
+            let at = again.iter().zip(bytes).position(|(a, b)| a != b).unwrap_or(again.len().min(bytes.len()));
+            return Err(Fail::new(
+                "repeat/bytes-differ-after-erase",
+                format!(
+                    "{}: drawn, erased and drawn again on the same handler: the last draw differs from the first ({} vs {} bytes), first difference {}",
+                    v.ctx,
+                    again.len(),
+                    bytes.len(),
+                    excerpt(&again, at)
+                ),
+            ));
+        }
+    }
+    // short-lived image objects on a long-lived handler (an animation: a fresh Image per frame,
+    // dropped after its draw): same size, different content, very likely the same allocation
+    {
+        let v = &views[0];
+        if v.px.h >= 6 && v.px.w >= 1 {
+            let mut h3 = SixelImageHandler::new(bg);
+            for step in 0..3usize {
+                // frame `step`: the view's pixels rotated by `step` rows
+                let mut px = v.px.clone();
+                let w = px.w;
+                px.px.rotate_left((step * w) % (px.h * w).max(1));
+                let frame = guard_val(|| {
+                    Image::from(SurfaceOwned::new_with(Size { height: px.h, width: px.w }, |pos| {
+                        let [r, g, b, a] = px.px[pos.row * w + pos.col];
+                        RGBA::new(r, g, b, a)
+                    }))
+                })?;
+                let ctx = format!("{} [animation frame {step}: fresh Image object of the same size, dropped after the draw]", v.ctx);
+                let exp = expect(&px, c.bg);
+                let bytes = draw(&mut h3, &frame, &ctx)?;
+                check_draw(&bytes, &px, &exp, &ctx)?;
+                drop(frame);
+            }
+        }
+    }
     // handler 2 (fresh): same views in reverse order, same per-draw oracle
     let mut h2 = SixelImageHandler::new(bg);
     for v in views.iter().rev() {
@@ -1101,7 +1147,7 @@ impl Property for C12 {
     }
 
     fn cases(&self, tier: Tier) -> u32 {
-        tier.pick(6_000, 24_000)
+        tier.pick(4_000, 20_000)
     }
 
     fn max_shrink_iters(&self) -> u32 {
@@ -1115,7 +1161,7 @@ impl Property for C12 {
          (index vectors have any length >= 1 and are read cyclically, so they shrink by removal); \
          special class: 256 colours one of which is both an opaque colour and the background showing through fully transparent pixels; bg in {None, colour}; \
          1..=3 views (full image, crop, crop of a crop; >= 6 rows, >= 1 column) drawn in order on one handler, all drawn a second time (bytes must be identical), \
-         then drawn in reverse order on a fresh handler (in one case of four each of those draws is preceded by a draw of the same view into a writer that fails after 0-2999 bytes). Every draw is decoded by an independent sixel interpreter and checked for well-formedness, declared size, \
+         erased and drawn once more (bytes must equal the first draw), three short-lived images of the first view's size (its pixels rotated by 0-2 rows, each a fresh allocation dropped after its draw) drawn on a third handler, and all views drawn in reverse order on a fresh handler (in one case of four each of those draws is preceded by a draw of the same view into a writer that fails after 0-2999 bytes). Every draw is decoded by an independent sixel interpreter and checked for well-formedness, declared size, \
          registers, full coverage, nothing outside, and pixel-exactness when colours fit. \
          non-trivial = some draw has >= 2 bands and >= 2 colours painted in one band and a repeat introducer with count >= 4 on a non-empty sixel"
             .into()
